@@ -91,6 +91,7 @@ type Partition struct {
 	LogStart int64
 	LEO      int64 // log end offset == high watermark in this model
 	Batches  []*StoredBatch
+	AllBatches []*StoredBatch // every batch ever appended (retention does not remove from here)
 	Err      int16 // partition-level metadata error
 	waiters  []func()
 }
@@ -184,6 +185,7 @@ type FaultCfg struct {
 	Stall          int
 	ErrorCode      int
 	SlowMin, SlowMax time.Duration
+	StallReset       time.Duration // a stalled connection is reset by the broker after this long (default 8s)
 	// which api keys are eligible (nil = all except ApiVersions/SASL)
 	APIs map[int16]bool
 	// stop injecting after this simulated time (0 = never stop)
@@ -397,6 +399,10 @@ func (b *Broker) respond(c *Conn, st *connState, r *Req, body rc.Msg) {
 		return
 	}
 	r.Resp = body
+	if cl.S.traceOn {
+		cl.S.Tracef("b%d c%d %s v%d #%d req=%v", b.ID, c.ID, r.API.Name, r.Hdr.APIVersion, r.Hdr.CorrelationID, briefMsg(r.Body))
+		cl.S.Tracef("   resp fault=%q %v", r.Fault, briefMsg(body))
+	}
 	frame, _, err := rc.EncodeResponse(r.Hdr.APIKey, r.Hdr.APIVersion, r.Hdr.CorrelationID, body, nil)
 	if err != nil {
 		panic(fmt.Sprintf("simkafka: cannot encode %s v%d response: %v", r.API.Name, r.Hdr.APIVersion, err))
@@ -408,7 +414,13 @@ func (b *Broker) respond(c *Conn, st *connState, r *Req, body rc.Msg) {
 		span := int((cl.F.SlowMax - cl.F.SlowMin) / time.Millisecond)
 		delay += cl.F.SlowMin + time.Duration(cl.S.T.Intn("fault", span+1))*time.Millisecond
 	case "stall":
-		// never answered; the connection stays busy
+		// never answered; the connection stays busy until the broker drops it
+		// (idle-connection reaper / TCP keep-alive), StallReset later
+		d := cl.F.StallReset
+		if d == 0 {
+			d = 8 * time.Second
+		}
+		cl.S.After(d, fmt.Sprintf("c%d:stall-reset", c.ID), func() { c.ServerReset() })
 		return
 	case "cut-after-apply":
 		c.ServerReset()
@@ -669,4 +681,12 @@ func (c *Cluster) metadata(b *Broker, r *Req) rc.Msg {
 	r.Applied = true
 	return rc.Msg{"throttle_time_ms": int32(0), "brokers": brokers, "cluster_id": c.ClusterID, "controller_id": c.Controller,
 		"topics": topics, "cluster_authorized_operations": int32(-2147483648)}
+}
+
+func briefMsg(m rc.Msg) string {
+	s := fmt.Sprintf("%v", map[string]any(m))
+	if len(s) > 400 {
+		s = s[:400] + "..."
+	}
+	return s
 }
